@@ -137,3 +137,102 @@ Proof.
 Qed.
 
 End Shelter2.
+
+(* ---------- exact time: what comes after a root pass comes strictly later ---------- *)
+Section Later.
+Local Open Scope Z_scope.
+Variable tk : Z.
+Hypothesis Tk : 0 <= tk.
+Implicit Types s : st Z.
+
+Lemma steps_later (s s' : st Z) : steps s s' ->
+  exists l, trace s' = l ++ trace s /\ Forall (fun e => e_tyme e = tyme s) l /\ tyme s' = tyme s.
+Proof.
+  intro St. destruct (steps_trace_tyme _ _ St) as (l & Tr & F). exists l. split; [exact Tr|]. split; [exact F|now apply steps_tyme].
+Qed.
+
+Lemma cycle_later cycles : forall fuel s limit stop,
+  exists later, trace (cycle_loop tk cycles fuel s limit stop) = later ++ trace s /\
+                Forall (fun e => tyme s <= e_tyme e) later.
+Proof.
+  induction cycles as [|c IH]; intros fuel s limit stop; cbn [cycle_loop].
+  - exists []. split; [reflexivity|constructor].
+  - destruct (recur_pass tk fuel s 0%N) as [s1 r] eqn:E.
+    destruct (frame_all tk fuel) as (_ & _ & _ & _ & Fco & _ & _ & _ & _ & Frp & _).
+    destruct (steps_later s s1 (Frp s s 0%N s1 r (st_refl s) E)) as (l1 & Tr1 & F1 & Ty1).
+    assert (Close : forall s3 k, tyme s <= tyme s3 -> (exists l3, trace s3 = l3 ++ trace s /\ Forall (fun e => tyme s <= e_tyme e) l3) ->
+              exists later, trace (emit (close_own tk fuel s3 0%N) k 0%N) = later ++ trace s /\
+                            Forall (fun e => tyme s <= e_tyme e) later).
+    { intros s3 k Le (l3 & Tr3 & F3). destruct (steps_later s3 _ (Fco s3 s3 0%N (st_refl s3))) as (l4 & Tr4 & F4 & Ty4).
+      eexists (_ :: l4 ++ l3). split; [cbn [trace emit app]; rewrite Tr4, Tr3, app_assoc; reflexivity|].
+      constructor; [cbn [e_tyme]; lia|]. apply Forall_app. split; [|exact F3].
+      eapply Forall_impl; [|exact F4]. intros e He. cbn beta in He. lia. }
+    assert (L1 : exists l3, trace s1 = l3 ++ trace s /\ Forall (fun e => tyme s <= e_tyme e) l3).
+    { exists l1. split; [exact Tr1|]. eapply Forall_impl; [|exact F1]. intros e He. cbn beta in He. lia. }
+    assert (Tick : exists later,
+      trace (match deeds (get_sched (set_tyme s1 (tadd (tyme s1) tk)) 0%N) with
+             | [] => emit (close_own tk fuel (set_done (set_tyme s1 (tadd (tyme s1) tk)) 0%N (Some true)) 0%N) DoReturn 0%N
+             | _ :: _ =>
+               if match limit with Some l => negb (tfalsy l) | None => false end && tleb stop (tyme (set_tyme s1 (tadd (tyme s1) tk)))
+               then emit (close_own tk fuel (set_tyme s1 (tadd (tyme s1) tk)) 0%N) DoReturn 0%N
+               else cycle_loop tk c fuel (set_tyme s1 (tadd (tyme s1) tk)) limit stop
+             end) = later ++ trace s /\ Forall (fun e => tyme s <= e_tyme e) later).
+    { destruct (deeds (get_sched (set_tyme s1 (tadd (tyme s1) tk)) 0%N)).
+      - apply Close; [cbn [tyme set_done set_tyme tadd ZTime]; lia|exact L1].
+      - destruct (_ && _).
+        + apply Close; [cbn [tyme set_tyme tadd ZTime]; lia|exact L1].
+        + destruct (IH fuel (set_tyme s1 (tadd (tyme s1) tk)) limit stop) as (l2 & Tr2 & F2).
+          destruct L1 as (l3 & Tr3 & F3). exists (l2 ++ l3). split.
+          * rewrite Tr2. cbn [trace set_tyme]. rewrite Tr3, app_assoc. reflexivity.
+          * apply Forall_app. split; [|exact F3]. eapply Forall_impl; [|exact F2]. intros e He.
+            cbn [tyme set_tyme tadd ZTime] in He. lia. }
+    destruct r as [t| |[|]|]; try exact Tick.
+    + apply Close; [lia|exact L1].
+    + apply Close; [lia|exact L1].
+    + exact L1.
+Qed.
+
+(* after the root pass that started at tyme s: every later Recur event of the run
+   carries a tyme >= tyme s + tock *)
+Theorem after_pass_later c fuel s limit stop s1 r :
+  recur_pass tk fuel s 0%N = (s1, r) ->
+  exists later, trace (cycle_loop tk (S c) fuel s limit stop) = later ++ trace s1 /\
+                Forall (fun e => e_kind e = Recur -> tyme s + tk <= e_tyme e) later.
+Proof.
+  intro E. cbn [cycle_loop]. rewrite E.
+  destruct (frame_all tk fuel) as (_ & _ & _ & _ & Fco & _ & _ & _ & _ & Frp & _).
+  assert (Ty1 : tyme s1 = tyme s) by (apply steps_tyme; eapply Frp; [apply st_refl|exact E]).
+  (* closing emits no Recur *)
+  assert (CloseNR : forall s3 k, k <> Recur -> (exists l3, trace s3 = l3 ++ trace s1 /\ Forall (fun e => e_kind e = Recur -> tyme s + tk <= e_tyme e) l3) ->
+            exists later, trace (emit (close_own tk fuel s3 0%N) k 0%N) = later ++ trace s1 /\
+                          Forall (fun e => e_kind e = Recur -> tyme s + tk <= e_tyme e) later).
+  { intros s3 k Hk (l3 & Tr3 & F3).
+    destruct (norecur_all tk fuel) as (_ & _ & _ & Nco & _).
+    destruct (Nco s3 s3 0%N (nrc_refl s3)) as (l4 & Tr4 & F4).
+    eexists (_ :: l4 ++ l3). split; [cbn [trace emit app]; rewrite Tr4, Tr3, app_assoc; reflexivity|].
+    constructor; [cbn [e_kind]; intro; congruence|]. apply Forall_app. split; [|exact F3].
+    eapply Forall_impl; [|exact F4]. intros e He Hr. congruence. }
+  assert (L0 : exists l3, trace s1 = l3 ++ trace s1 /\ Forall (fun e => e_kind e = Recur -> tyme s + tk <= e_tyme e) l3).
+  { exists []. split; [reflexivity|constructor]. }
+  assert (Tick : exists later,
+      trace (match deeds (get_sched (set_tyme s1 (tadd (tyme s1) tk)) 0%N) with
+             | [] => emit (close_own tk fuel (set_done (set_tyme s1 (tadd (tyme s1) tk)) 0%N (Some true)) 0%N) DoReturn 0%N
+             | _ :: _ =>
+               if match limit with Some l => negb (tfalsy l) | None => false end && tleb stop (tyme (set_tyme s1 (tadd (tyme s1) tk)))
+               then emit (close_own tk fuel (set_tyme s1 (tadd (tyme s1) tk)) 0%N) DoReturn 0%N
+               else cycle_loop tk c fuel (set_tyme s1 (tadd (tyme s1) tk)) limit stop
+             end) = later ++ trace s1 /\ Forall (fun e => e_kind e = Recur -> tyme s + tk <= e_tyme e) later).
+  { destruct (deeds (get_sched (set_tyme s1 (tadd (tyme s1) tk)) 0%N)).
+    - apply CloseNR; [discriminate|exact L0].
+    - destruct (_ && _).
+      + apply CloseNR; [discriminate|exact L0].
+      + destruct (cycle_later c fuel (set_tyme s1 (tadd (tyme s1) tk)) limit stop) as (l2 & Tr2 & F2).
+        exists l2. split; [exact Tr2|]. eapply Forall_impl; [|exact F2]. intros e He _.
+        cbn [tyme set_tyme tadd ZTime] in He. lia. }
+  destruct r as [t| |[|]|]; try exact Tick.
+  - apply CloseNR; [discriminate|exact L0].
+  - apply CloseNR; [discriminate|exact L0].
+  - exact L0.
+Qed.
+
+End Later.
